@@ -17,7 +17,7 @@ AllowedCodes(kind) ==
   CASE kind = "TooLong" -> {"5"} [] kind = "TooShort" -> {"4"} [] kind = "BadCode" -> {"7"} [] kind = "BadClass" -> {"6"}
     [] kind = "BadDate" -> {"8"} [] kind = "BadTime" -> {"9"} [] kind = "MissingRequired" -> {"1"} [] kind = "NotUsedPresent" -> {"10"}
     [] kind = "TooManyElements" -> {"3"} [] kind = "TooManySubElements" -> {"3"} [] kind = "SyntaxBroken" -> {"2", "10"}
-    [] kind = "UnknownSeg" -> {"1"} [] kind = "OutOfPlaceSeg" -> {"1", "2", "7"} [] kind = "MissingRequiredSeg" -> {"3"} [] kind = "SegOverMax" -> {"5"} [] kind = "LoopOverMax" -> {"4"}
+    [] kind = "UnknownSeg" -> {"1"} [] kind = "OutOfPlaceSeg" -> {"1", "2", "7"} [] kind = "MissingRequiredSeg" -> {"3"} [] kind = "MissingRequiredLoop" -> {"3"} [] kind = "SegOverMax" -> {"5"} [] kind = "LoopOverMax" -> {"4"}
     [] OTHER -> {}
 Errs(r) == {r.errors[j] : j \in 1..Len(r.errors)}
 (* an error that localises the fault: right level, matching code, at the injected segment position and element position *)
@@ -31,7 +31,10 @@ AtInjection(r, e) ==
        \* ... or it is taken for another segment of the same id, and the one it was meant to be is then reported missing
        \/ /\ ~r.local /\ e.lvl = "seg" /\ e.code = "3" /\ e.seg = r.inj.seg
   ELSE /\ e.lvl = "seg" /\ e.code \in AllowedCodes(r.kind) /\ e.seg = r.inj.seg
-       /\ (r.kind = "MissingRequiredSeg" \/ e.segpos = r.inj.segpos)
+       \* a missing segment or loop is reported where its absence shows: at the segment that follows the gap - for a missing
+       \* SEGMENT no later than the first following segment beyond its own ordinal (segments that share an ordinal may come in
+       \* any order, so a same-ordinal sibling right after the gap decides nothing yet; inj.until carries that position)
+       /\ IF r.kind = "MissingRequiredSeg" THEN e.segpos >= r.inj.segpos /\ e.segpos <= r.inj.until ELSE e.segpos = r.inj.segpos
 Clause(r) ==
   IF ~r.clean THEN ""                       \* the unfaulted document itself was not accepted: C02's business, no claim here
   ELSE IF r.exc # "" THEN "exception"
